@@ -886,6 +886,18 @@ def _case_length(run, P):
                            why="a shortcut for names that 'already are identifiers' by Python's "
                                "Unicode notion (str.isidentifier) lets non-ASCII letters through "
                                "to a target that accepts ASCII only")
+            if not folds:
+                # the case may be folded by a name generator of the repository's own instead
+                # (its conflict test compares folded names): whether it also *records* every
+                # name folded is a fact about pytools' hooks that this clause does not read
+                for c_ in m.classes.values():
+                    ic = c_.methods.get("is_name_conflicting")
+                    if ic is not None and any(k in ast.unparse(ic.node) for k in (".lower()", ".upper()",
+                                                                                   ".casefold()")) \
+                            and any(isinstance(x, ast.Call) and dotted(x.func) == c_.name
+                                    for x in ast.walk(init.node)):
+                        raise AnalysisError(f"FortranNameManager: case is folded by {c_.name}, not by the "
+                                            "translate function; not decided")
             run.ob("C13.case", init, n, folds,
                    construct=f"{norm(n, 90)}: translate function folds case",
                    why="Fortran compares identifiers case-insensitively and the unique-"
